@@ -381,6 +381,8 @@ func c03EnvScope(env string) parser.Scope {
 	return vs
 }
 
+var c03ExpLiteral = regexp.MustCompile(`[0-9][0-9.]*[eE][+-]?[0-9]+`)
+
 // c03Case describes one case for the payload builder.
 type c03Case struct {
 	src      string
@@ -414,6 +416,11 @@ func c03PayloadOf(c c03Case) string {
 		if t.ID == parser.TokenNUMBER {
 			addNum(t.Val)
 		}
+	}
+	// number literals with an exponent the lexer splits (known finding number-exponent-split): the
+	// documented reading needs the value of the whole literal
+	for _, t := range c03ExpLiteral.FindAllString(src, -1) {
+		addNum(strings.ToLower(t))
 	}
 	for _, t := range c.intended {
 		if len(t) > 0 && t[0] >= '0' && t[0] <= '9' {
@@ -600,14 +607,14 @@ var c03PreOps = []string{"-", "+", "not"}
 
 // operand universe by kind
 var c03Nums = []string{"0", "1", "2", "3", "7", "0.5", "2.5", "1.50", "10", "100", "0.1", "0.3", "1e+308",
-	"123456789012345678901234567890", "9007199254740993", "a", "n", "5.", "1e+2", "007",
+	"123456789012345678901234567890", "9007199254740993", "a", "n", "5.", "1e+2", "007", "010", "0123", "08", "0.10", "017", "0010.50",
 	"9223372036854775807", "9223372036854775808", "9223372036854774784", "4611686018427387904"}
 var c03Strs = []string{`""`, `"a"`, `"x"`, `"abc"`, `"10"`, `"9"`, `"1"`, `"true"`, `"A"`, `" "`, `"a.c"`, `"("`,
 	`"^a"`, `"[1 x]"`, `'x'`, `r"x"`, `"<nil>"`, `"-2.5"`, "b", "s",
-	`"a=b"`, `"x=1"`, `"a=b=c"`, `"a\"b"`, `"a\\b"`, `"tab\there"`, `"é"`, `"日本"`, `'it"s'`, `"\u00e9"`, `r"a\b"`, `"=="`}
+	`"a=b"`, `"x=1"`, `"a=b=c"`, `"a\nc"`, `"x\ny"`, `"a\r\nb"`, `"\a\b\f\v"`, `"^x.y$"`, `"(?i)A"`, `"(?s)a.c"`, `"a.c"`, "r\"a\nc\"", `"B"`, `"aB"`, `"a\"b"`, `"a\\b"`, `"tab\there"`, `"é"`, `"日本"`, `'it"s'`, `"\u00e9"`, `r"a\b"`, `"=="`}
 var c03Bools = []string{"true", "false", "TRUE", "c", "f"}
 var c03Nulls = []string{"null", "NULL", "d", "u"}
-var c03Lists = []string{"[]", "[1]", `[1, "x"]`, "[[1]]", "[1, 2, 3]", "[null]", "[a, b]", "[true, false]", `["10", 10]`, "l", "m"}
+var c03Lists = []string{c03LongList(12), c03LongList(40), "[]", "[1]", `[1, "x"]`, "[[1]]", "[1, 2, 3]", "[null]", "[a, b]", "[true, false]", `["10", 10]`, "l", "m"}
 var c03Kinds = [][]string{c03Nums, c03Strs, c03Bools, c03Nulls, c03Lists}
 
 // one representative per literal kind {num, str, bool, null, var, list}
@@ -630,6 +637,18 @@ func c03Join(r *Rand, toks []string, layout bool) string {
 	return src
 }
 
+// c03GlueMerges says whether writing a directly before b would form another token (a two
+// character symbol, a comment opener, a number continuing with a dot)
+func c03GlueMerges(a, b string) bool {
+	x, y := a[len(a)-1], b[0]
+	pair := string(x) + string(y)
+	switch pair {
+	case ">=", "<=", "!=", "==", "//", ":=", "/*":
+		return true
+	}
+	return x == '.' || y == '.' || x == 'r' && (y == '"' || y == '\'')
+}
+
 // c03JoinW is c03Join that also returns the token texts as written (keyword spelling varied)
 func c03JoinW(r *Rand, toks []string, layout bool) (string, []string) {
 	var sb strings.Builder
@@ -638,7 +657,7 @@ func c03JoinW(r *Rand, toks []string, layout bool) (string, []string) {
 		if i > 0 {
 			sep := " "
 			if layout {
-				switch r.Intn(8) {
+				switch r.Intn(12) {
 				case 0:
 					sep = "\n"
 				case 1:
@@ -647,10 +666,20 @@ func c03JoinW(r *Rand, toks []string, layout bool) (string, []string) {
 					sep = "\t"
 				case 3:
 					sep = " \n  "
-				case 4, 5:
-					a, b := c03IsWordTok(toks[i-1]), c03IsWordTok(t)
-					if a != b && (t == "(" || t == ")" || t == "[" || t == "]" || t == "," || toks[i-1] == "(" || toks[i-1] == ")" || toks[i-1] == "[" || toks[i-1] == "]" || toks[i-1] == ",") {
+				case 4, 5, 6, 7:
+					// nothing between the tokens wherever that cannot merge two words: symbol|symbol
+					// and operand|symbol are glued (`1+2`, `a<-1`, `1>=-2`, `2*-3`, `1--1`)
+					if !(c03IsWordTok(toks[i-1]) && c03IsWordTok(t)) && !c03GlueMerges(toks[i-1], t) {
 						sep = ""
+					}
+				case 8:
+					// everything skipWhiteSpace skips: unicode.IsSpace or IsControl
+					sep = []string{"\r\n", "\f", "\u00a0", "\u2028", "\v", "\r", "\u0085", "\x01"}[r.Intn(8)]
+				case 9:
+					// a comment between the tokens (the parser skips comment tokens)
+					sep = []string{" /* c */ ", "/**/", " # c\n", "/* 1 + \n 2 */", " #\n "}[r.Intn(5)]
+					if strings.HasSuffix(toks[i-1], "/") {
+						sep = " " + sep // `/` and `/*` would read `//` `*`
 					}
 				}
 			}
@@ -717,6 +746,22 @@ func c03SplitToks(src string) []string {
 
 var c03Keywords = map[string]bool{"and": true, "or": true, "not": true, "like": true, "in": true, "hasprefix": true,
 	"hassuffix": true, "notin": true, "true": true, "false": true, "null": true}
+
+// c03LongList writes a list literal of n elements (numbers, strings, a nested list)
+func c03LongList(n int) string {
+	var parts []string
+	for i := 0; i < n; i++ {
+		switch i % 5 {
+		case 3:
+			parts = append(parts, fmt.Sprintf(`"s%d"`, i))
+		case 4:
+			parts = append(parts, fmt.Sprintf("[%d, %d]", i, i+1))
+		default:
+			parts = append(parts, strconv.Itoa(i))
+		}
+	}
+	return "[" + strings.Join(parts, ", ") + "]"
+}
 
 type c03G struct {
 	g      *Gen
@@ -919,6 +964,11 @@ func c03Gen(g *Gen) {
 		`null == d`, `u == null`, `1 == 1.0`, `"1" == 1`, "1 +\n2", "1\n+ 2", "(\n1\n)", `-(-(1))`, `- - 1`, `not not true`, `+ "a"`, `- null`, `not 1`,
 		`1 in [1 2]`, `[1,] == [1]`, `1 <= 2 <= 3`, `1 + 2 > 2 and 3 * 1 == 3 or false`, `9007199254740993 % 9007199254740992`,
 		`123456789012345678901234567890 // 1`, `1 - -1`, `1 notin [] and not false`, `a a`, `1 +`, `(1`, `1 )`, `[1`, `* 2`,
+		`[1e5]`, `1 in [1e5]`, `[1E+5]`, `[2e-1, 3]`, `[1e5, 2]`, `[1.5e-3]`, `[1e-5] == [1]`, `[a -b]`, `[1 -2]`, `[1 - 2]`, `[a - b]`,
+		`0.1 + 0.2 == 0.3`, `0.0000000001 == 0`, `0.0000000001 in [0]`, `0.1 + 0.2 != 0.3`, `0.3 in [0.1 + 0.2]`, `1 == 1.0000000001`,
+		`010 + 1`, `017 * 2`, `[010] == [10]`, `08 + 1`, `0123`, `0.10 == 0.1`, `"a\nc" like "a.c"`, `"x\ny" like "^x.y$"`, `"a\nc" like "(?s)a.c"`,
+		`"A" like "(?i)a"`, `"a\nc" hasprefix "a\n"`, `a<-1`, `a <-1`, `1 <-2`, `n<-2 and true`, `1>=-2`, `2*-3`, `1--1`, `1+2`, `1+-+-1`, `(1)+(2)`, `[1]==[1]`,
+		`1 + /* c */ 2`, "1 + # c\n 2", `/* a */ 1 /* b */ + /* c */ 2 /* d */`, "1 +\r\n2", "1\f+\u00a02", "1\u2028+ 2",
 		`"a=b" + 1`, `1 + "a=b"`, `"x=1" and true`, `1 in "a=b"`, `"a=b" < 1`, `"é" + 1`, `"a\"b" * 2`, `- "tab\there"`,
 		`true and     5`, `1 in    5`, `true or (2)`, `c and "x"`, `1 notin "l"`, `(1 < 2) and (1 + 1)`,
 		`9223372036854775807 % 10`, `9223372036854775808 % 10`, `9223372036854774784 % 10`, `- 9223372036854775808 % 10`,
@@ -1135,12 +1185,66 @@ func c03Gen(g *Gen) {
 			emitM("multi-list-identity", src, envs)
 		}
 	}
+	// metamorphic numeric neighbours: x against x +- 1 ulp, x +- 1e-12, x*(1 +- 2^-52), and quotients just
+	// below / above an integer; `%` on fractional and negative operands
+	N := func(f float64) string {
+		if math.IsNaN(f) {
+			return "Nnan"
+		}
+		return fmt.Sprintf("N%016x", math.Float64bits(f))
+	}
+	bases := []float64{0.1, 0.2, 0.3, 1, 2.5, 1e-10, 1e10, -7.25, 1.0 / 3, 100, 0, 1e-300, 123456.789, -1, 0.7, 4503599627370497, 1e15}
+	nNear := 400
+	if g.Thorough() {
+		nNear = 8000
+	}
+	for i := 0; i < nNear; i++ {
+		x := bases[r.Intn(len(bases))]
+		if r.Intn(3) == 0 {
+			x = (float64(r.Intn(2000000)) - 1000000) / float64(1+r.Intn(1000))
+		}
+		near := func() float64 {
+			switch r.Intn(7) {
+			case 0:
+				return math.Nextafter(x, math.Inf(1))
+			case 1:
+				return math.Nextafter(x, math.Inf(-1))
+			case 2:
+				return x + 1e-12
+			case 3:
+				return x - 1e-12
+			case 4:
+				return x * (1 + 1.0/(1<<52))
+			case 5:
+				return x + 1e-10
+			}
+			return x
+		}
+		var envs []string
+		for k := 0; k < 4; k++ {
+			envs = append(envs, "v="+N(x)+";w="+N(near()))
+		}
+		src := []string{"v == w", "v != w", "v < w", "v <= w", "v >= w", "v in [ w ]", "v notin [ 0 , w ]", "[ v ] == [ w ]", "v - w == 0", "v + 0.1 == w + 0.1"}[r.Intn(10)]
+		emitM("multi-numeric-neighbours", src, envs)
+		// quotients: v = k*w exactly, one ulp below, one ulp above
+		w := []float64{1, 2, 3, 0.1, 0.5, 7, -2, 1e-3, 10}[r.Intn(9)]
+		k := float64(r.Intn(200) - 100)
+		q := k * w
+		emitM("multi-numeric-neighbours", "v // w", []string{"v=" + N(q) + ";w=" + N(w), "v=" + N(math.Nextafter(q, math.Inf(1))) + ";w=" + N(w),
+			"v=" + N(math.Nextafter(q, math.Inf(-1))) + ";w=" + N(w), "v=" + N(q+1e-12) + ";w=" + N(w), "v=" + N(q-1e-10) + ";w=" + N(w)})
+		// % : fractional and negative operands
+		fr := func() float64 {
+			return []float64{7.5, -7.5, 0.5, -0.5, 2.5, -2.5, 7, -7, 1e15 + 0.5, 3.999999999999999, -3.999999999999999, 10.25, 0.999, 1.5, -1.5, 100.75}[r.Intn(16)]
+		}
+		emitM("multi-numeric-neighbours", "v % w", []string{"v=" + N(fr()) + ";w=" + N(fr()), "v=" + N(fr()) + ";w=" + N(fr()), "v=" + N(fr()) + ";w=" + N(fr()), "v=" + N(x) + ";w=" + N(fr())})
+	}
 	mvals := [5][]string{
 		{"N0000000000000000", "N3ff0000000000000", "N4000000000000000", "Nc004000000000000", "N3fe0000000000000", "N4024000000000000",
 			"N4059000000000000", "N7fe1ccf385ebc8a0", "Nbff0000000000000", "N401c000000000000", "N4008000000000000",
 			"Nnan", "N7ff0000000000000", "Nfff0000000000000", "N8000000000000000", "N43e0000000000000", "Nc3e0000000000000",
 			"N43dfffffffffffff", "Nc3e0000000000001", "N43d0000000000000"},
-		{S(""), S("a"), S("x"), S("abc"), S("banana"), S("apple"), S("10"), S("9"), S("^a"), S("^b"), S("p{3}"), S("("), S("a.c"), S("true"), S("[1 x]"), S("an")},
+		{S(""), S("a"), S("x"), S("abc"), S("banana"), S("apple"), S("10"), S("9"), S("^a"), S("^b"), S("p{3}"), S("("), S("a.c"), S("true"), S("[1 x]"), S("an"),
+			S("a\nc"), S("x\ny"), S("a.c"), S("^x.y$"), S("(?i)A"), S("A"), S("a\r\nb"), S("line1\nline2")},
 		{"t", "f"},
 		{"n"},
 		{"L()", "L(N3ff0000000000000," + S("x") + ")", "L(L(N3ff0000000000000))", "L(N3ff0000000000000,N4000000000000000,N4008000000000000)",
@@ -1439,12 +1543,151 @@ func c03Extract(args []string) int {
 	consts := c03LoadConsts(files)
 	fields := []string{"Name", "Token", "Meta", "Children", "Runtime", "binding", "nullDenotation", "leftDenotation"}
 	entries := map[string]c03Entry{}
+	giveUp := "" // a reason why the table cannot be read with certainty (then: exit 1, nothing written)
+	// package-level functions (for entries built by a helper)
+	funcs := map[string]*ast.FuncDecl{}
+	for _, f := range files {
+		for _, d := range f.Decls {
+			if fd, ok := d.(*ast.FuncDecl); ok && fd.Recv == nil {
+				funcs[fd.Name.Name] = fd
+			}
+		}
+	}
+	// subst replaces identifiers that are parameters of a helper by the arguments of the call
+	var subst func(e ast.Expr, env map[string]ast.Expr) ast.Expr
+	subst = func(e ast.Expr, env map[string]ast.Expr) ast.Expr {
+		switch x := e.(type) {
+		case *ast.Ident:
+			if v, ok := env[x.Name]; ok {
+				return v
+			}
+		case *ast.ParenExpr:
+			return &ast.ParenExpr{X: subst(x.X, env)}
+		case *ast.BinaryExpr:
+			return &ast.BinaryExpr{X: subst(x.X, env), Op: x.Op, Y: subst(x.Y, env)}
+		case *ast.UnaryExpr:
+			return &ast.UnaryExpr{Op: x.Op, X: subst(x.X, env)}
+		case *ast.CallExpr:
+			args := make([]ast.Expr, len(x.Args))
+			for i, a := range x.Args {
+				args[i] = subst(a, env)
+			}
+			return &ast.CallExpr{Fun: x.Fun, Args: args}
+		}
+		return e
+	}
+	// entryOf understands: ASTNode{…}, &ASTNode{…}, {…} (elided type), and a call of a helper
+	// whose body is a single `return <one of these>` (parameters substituted)
+	var entryOf func(v ast.Expr, env map[string]ast.Expr, depth int) (c03Entry, bool)
+	entryOf = func(v ast.Expr, env map[string]ast.Expr, depth int) (c03Entry, bool) {
+		if depth > 5 {
+			return c03Entry{}, false
+		}
+		switch x := v.(type) {
+		case *ast.ParenExpr:
+			return entryOf(x.X, env, depth+1)
+		case *ast.UnaryExpr:
+			if x.Op == token.AND {
+				return entryOf(x.X, env, depth+1)
+			}
+			return c03Entry{}, false
+		case *ast.CallExpr:
+			id, ok := x.Fun.(*ast.Ident)
+			if !ok {
+				return c03Entry{}, false
+			}
+			fd, ok := funcs[id.Name]
+			if !ok || fd.Body == nil || len(fd.Body.List) != 1 {
+				return c03Entry{}, false
+			}
+			ret, ok := fd.Body.List[0].(*ast.ReturnStmt)
+			if !ok || len(ret.Results) != 1 {
+				return c03Entry{}, false
+			}
+			var params []string
+			for _, fl := range fd.Type.Params.List {
+				for _, n := range fl.Names {
+					params = append(params, n.Name)
+				}
+			}
+			if len(params) != len(x.Args) {
+				return c03Entry{}, false
+			}
+			inner := map[string]ast.Expr{}
+			for i, pn := range params {
+				inner[pn] = subst(x.Args[i], env)
+			}
+			return entryOf(ret.Results[0], inner, depth+1)
+		case *ast.CompositeLit:
+			vals := map[string]ast.Expr{}
+			for i, f := range x.Elts {
+				if fkv, ok := f.(*ast.KeyValueExpr); ok {
+					vals[c03ExprName(fkv.Key)] = subst(fkv.Value, env)
+				} else if i < len(fields) {
+					vals[fields[i]] = subst(f, env)
+				}
+			}
+			e := c03Entry{node: "\"\"", nud: "nil", led: "nil", found: true}
+			name := func(v ast.Expr) (string, bool) {
+				switch y := v.(type) {
+				case *ast.Ident:
+					return y.Name, true
+				case *ast.BasicLit:
+					return y.Value, true
+				}
+				return "", false
+			}
+			ok := true
+			if v, has := vals["Name"]; has {
+				e.node, ok = name(v)
+			}
+			if v, has := vals["binding"]; has && ok {
+				coef, b, good := consts.linear(v, 0)
+				if !good || coef != 0 || b < 0 {
+					return c03Entry{}, false
+				}
+				e.binding = b
+			}
+			if v, has := vals["nullDenotation"]; has && ok {
+				e.nud, ok = name(v)
+			}
+			if v, has := vals["leftDenotation"]; has && ok {
+				e.led, ok = name(v)
+			}
+			return e, ok
+		}
+		return c03Entry{}, false
+	}
 	nmaps := 0
+	isMapIndex := func(e ast.Expr) (ast.Expr, bool) {
+		ix, ok := e.(*ast.IndexExpr)
+		if !ok {
+			return nil, false
+		}
+		id, ok := ix.X.(*ast.Ident)
+		return ix.Index, ok && id.Name == "astNodeMap"
+	}
 	visit := func(n ast.Node) bool {
 		var rhs ast.Expr
 		switch x := n.(type) {
 		case *ast.AssignStmt:
 			if len(x.Lhs) != 1 || len(x.Rhs) != 1 {
+				for _, l := range x.Lhs {
+					if _, ok := isMapIndex(l); ok {
+						giveUp = "astNodeMap[…] assigned in a multi-assignment"
+					}
+				}
+				return true
+			}
+			if key, ok := isMapIndex(x.Lhs[0]); ok {
+				// a later astNodeMap[TokenX] = … replaces the entry (statements are visited in source order)
+				k, isID := key.(*ast.Ident)
+				e, good := entryOf(x.Rhs[0], nil, 0)
+				if !isID || !good {
+					giveUp = "an assignment astNodeMap[…] = … is not understood"
+				} else {
+					entries[k.Name] = e
+				}
 				return true
 			}
 			if id, ok := x.Lhs[0].(*ast.Ident); !ok || id.Name != "astNodeMap" {
@@ -1456,51 +1699,40 @@ func c03Extract(args []string) int {
 				return true
 			}
 			rhs = x.Values[0]
+		case *ast.CallExpr:
+			if id, ok := x.Fun.(*ast.Ident); ok && id.Name == "delete" && len(x.Args) == 2 {
+				if a, ok := x.Args[0].(*ast.Ident); ok && a.Name == "astNodeMap" {
+					giveUp = "delete(astNodeMap, …)"
+				}
+			}
+			return true
 		default:
 			return true
 		}
 		cl, ok := rhs.(*ast.CompositeLit)
 		if !ok {
+			giveUp = "astNodeMap is not initialised by a map literal"
 			return true
 		}
 		nmaps++
 		for _, el := range cl.Elts {
 			kv, ok := el.(*ast.KeyValueExpr)
 			if !ok {
+				giveUp = "astNodeMap literal has an element without a key"
 				continue
 			}
-			key := c03ExprName(kv.Key)
-			vl, ok := kv.Value.(*ast.CompositeLit)
-			if !ok {
+			k, isID := kv.Key.(*ast.Ident)
+			if !isID {
+				giveUp = "astNodeMap literal has a key that is not a token constant"
 				continue
 			}
-			vals := map[string]ast.Expr{}
-			for i, f := range vl.Elts {
-				if fkv, ok := f.(*ast.KeyValueExpr); ok {
-					vals[c03ExprName(fkv.Key)] = fkv.Value
-				} else if i < len(fields) {
-					vals[fields[i]] = f
-				}
+			e, good := entryOf(kv.Value, nil, 0)
+			if !good {
+				// an entry that cannot be read: its values are NOT made up
+				entries[k.Name] = c03Entry{binding: -1, found: true}
+				continue
 			}
-			e := c03Entry{node: "\"\"", nud: "nil", led: "nil", found: true}
-			if v, ok := vals["Name"]; ok {
-				e.node = c03ExprName(v)
-			}
-			if v, ok := vals["binding"]; ok {
-				coef, b, ok := consts.linear(v, 0)
-				if !ok || coef != 0 || b < 0 {
-					fmt.Fprintln(os.Stderr, "binding of", key, "cannot be evaluated to a constant")
-					b = -1
-				}
-				e.binding = b
-			}
-			if v, ok := vals["nullDenotation"]; ok {
-				e.nud = c03ExprName(v)
-			}
-			if v, ok := vals["leftDenotation"]; ok {
-				e.led = c03ExprName(v)
-			}
-			entries[key] = e
+			entries[k.Name] = e
 		}
 		return true
 	}
@@ -1508,11 +1740,18 @@ func c03Extract(args []string) int {
 		ast.Inspect(f, visit)
 	}
 	if nmaps != 1 {
-		fmt.Fprintln(os.Stderr, "expected exactly one assignment to astNodeMap, found", nmaps)
+		fmt.Fprintln(os.Stderr, "expected exactly one initialisation of astNodeMap, found", nmaps)
 		return 1
 	}
-	for _, e := range entries {
-		if e.binding < 0 {
+	if giveUp != "" {
+		fmt.Fprintln(os.Stderr, "astNodeMap not evaluable:", giveUp)
+		return 1
+	}
+	for _, k := range c03TableKinds {
+		// every token kind of the fragment must have been found as an evaluable entry (a kind that is
+		// really absent from a completely understood map is a fact: unknown token)
+		if e, ok := entries[k[1]]; ok && e.binding < 0 {
+			fmt.Fprintln(os.Stderr, "entry of", k[1], "cannot be evaluated (not a literal / helper call with constant fields)")
 			return 1
 		}
 	}
@@ -1544,7 +1783,7 @@ func c03Extract(args []string) int {
 			}
 			sb.WriteString(fmt.Sprintf("  | %s => %s\n", k[0], v))
 		}
-		sb.WriteString("  | .other => " + dflt + "\n\n")
+		sb.WriteString("  | .other => " + dflt + "   -- not extracted: the driver refuses every other token\n\n")
 	}
 	col("binding", "Nat", func(e c03Entry) string { return strconv.Itoa(e.binding) }, "0")
 	col("nud", "Nud", func(e c03Entry) string {
